@@ -458,6 +458,12 @@ func (e *Engine) verifyFunc(t *Target) (res *FuncResult) {
 					esc.vars[k] = v
 				}
 				for _, item := range splitTop(fs.Assigns, ',') {
+					if m := heapItemRe.FindStringSubmatch(strings.TrimSpace(item)); m != nil {
+						if t := esc.lookupType(m[1]); t != nil {
+							c.frameWhole = append(c.frameWhole, c.elemKey(t))
+						}
+						continue
+					}
 					ex, err := parseSpecExpr(item)
 					if err != nil {
 						c.unsupported = append(c.unsupported, "bad assigns clause")
